@@ -132,6 +132,12 @@ def parseOp (t : List String) : Option Op :=
   | ["try_shrink_to", h, k] => do pure (.shrinkTo (← n h) (← n k) false)
   | ["shrink_to_fit", h] => do pure (.shrinkTo (← n h) 0 true)
   | ["try_shrink_to_fit", h] => do pure (.shrinkTo (← n h) 0 false)
+  | ["extend_chars", h, "exact", it] => do
+    let items ← parseItems it
+    pure (.extendChars (← n h) items.length items)
+  | ["collect_chars", d, "exact", it] => do
+    let items ← parseItems it
+    pure (.collectChars (← n d) items.length items)
   | ["extend_chars", h, k, it] => do pure (.extendChars (← n h) (← n k) (← parseItems it))
   | ["extend_strs", h, it] | ["write", h, it] => do pure (.extendStrs (← n h) (← parseItems it))
   | ["collect_chars", d, k, it] => do pure (.collectChars (← n d) (← n k) (← parseItems it))
